@@ -218,4 +218,21 @@ fire("C19", "floor-under-ceil", "R19.2", E(WK, "difference_kernel", "(n_cols - s
 fire("C19", "window-too-wide", "R19.3", E(SW, "sliding_windows", "result[i] = kernel(sequence[i * stride : i * stride + width][sample])", "result[i] = kernel(sequence[i * stride : i * stride + width + 1][sample])"), "window includes an out-of-window element")
 silent("C19", "none-sample-explicit", E(SW, "SlidingWindowTransformer.fit", "self.window_sample_ = np.arange(self.window_width)", "self.window_sample_ = np.arange(0, self.window_width, 1)"), "explicit start and step")
 
+# ------------------------------------------------------------------------------------------------ later additions
+KDE = "vectorizers/kde_vectorizer.py"
+fire("C01", "kde-width-from-input", "R1.6", E(KDE, "KDEVectorizer.transform", "np.empty((len(X), self.n_components), dtype=np.float64)", "np.empty((len(X), len(X[0])), dtype=np.float64)"), "dense result width taken from the input")
+fire("C02", "cfc-other-norm", "R2.6", E(CFC, "CountFeatureCompressionTransformer.transform", "        normed_data = normalize(X)\n", "        normed_data = normalize(X, norm=\"l1\")\n"), "transform normalises with another norm than fit")
+fire("C02", "wasserstein-other-power", "R2.6", E(LOT, "WassersteinVectorizer.transform", "np.array(X.sum(axis=1)), self.heuristic_normalization_power", "np.array(X.sum(axis=1)), self.reference_scale"), "transform rescales with another exponent than fit")
+fire("C03", "after-window-short", "R3.5", E(WK, "window_at_index", "min(ind + window_size + 1, len(token_sequence))", "min(ind + window_size, len(token_sequence))"), "the window after the index is one token short")
+fire("C03", "before-window-unflipped", "R3.5", E(WK, "window_at_index", "return np.flipud(token_sequence[max(ind - window_size, 0) : ind])", "return token_sequence[max(ind - window_size, 0) : ind]"), "the 'before' window is not nearest-first")
+fire("C04", "trigger-diverges", "R4.5", E(COO, "coo_append", "    if coo.ind[0] == coo.key.shape[0] - 1:\n        coo_sum_duplicates(coo)\n        if (coo.key.shape[0] - np.abs(coo.min[0])) <= COO_QUICKSORT_LIMIT:\n            merge_all_sum_duplicates(coo)\n            if coo.ind[0] >= 0.95 * coo.key.shape[0]:",
+     "    if coo.ind[0] == coo.key.shape[0] - 1:\n        coo_sum_duplicates(coo)\n        if (coo.key.shape[0] - np.abs(coo.min[0])) <= COO_QUICKSORT_LIMIT:\n            merge_all_sum_duplicates(coo)\n            if coo.ind[0] > 0.95 * coo.key.shape[0]:"), "one of the two duplicated flush triggers changed")
+fire("C04", "full-trigger-late", "R4.5", E(COO, "coo_append", "    if coo.ind[0] == coo.key.shape[0] - 1:", "    if coo.ind[0] == coo.key.shape[0]:"), "buffer-full test fires one append too late")
+fire("C04", "merge-copy-diverges", "R4.5", E(COO, "merge_sum_duplicates", "                    if coo.key[this_ptr] == result_key[result_ptr]:\n                        result_val[result_ptr] += coo.val[this_ptr]\n                    else:\n                        result_ptr += 1\n                        result_val[result_ptr] = coo.val[this_ptr]\n                        result_row[result_ptr] = coo.row[this_ptr]\n                        result_col[result_ptr] = coo.col[this_ptr]\n                        result_key[result_ptr] = coo.key[this_ptr]\n            else:",
+     "                    if coo.key[this_ptr] == result_key[result_ptr]:\n                        result_val[result_ptr] = coo.val[this_ptr]\n                    else:\n                        result_ptr += 1\n                        result_val[result_ptr] = coo.val[this_ptr]\n                        result_row[result_ptr] = coo.row[this_ptr]\n                        result_col[result_ptr] = coo.col[this_ptr]\n                        result_key[result_ptr] = coo.key[this_ptr]\n            else:"), "one tail of the merge overwrites instead of summing duplicates")
+fire("C05", "ngram-stage-drops-bound", "R5.2", E(NGC, "NgramCooccurrenceVectorizer._process_n_grams", "            max_unique_tokens=self.max_unique_tokens,\n", ""), "second-stage n-gram pruning forgets max_unique_tokens")
+fire("C06", "ngram-guard-strict", "R6.3", E(NG, "ngrams_of", "if i + ngram_size <= len(sequence):", "if i + ngram_size < len(sequence):"), "the last n-gram of every document is dropped")
+fire("C16", "cap-off-by-one", "R16.6", E(MG, "lempel_ziv_based_encode", "elif current_size >= max_size:", "elif current_size > max_size:"), "the dictionary can hold one phrase more than max_dict_size")
+silent("C04", "trigger-ge", E(COO, "coo_append", "    if coo.ind[0] == coo.key.shape[0] - 1:", "    if coo.ind[0] >= coo.key.shape[0] - 1:"), ">= instead of == in the buffer-full test")
+
 VARIANTS = V
